@@ -77,3 +77,29 @@ def near_limit_int_diagram(rng, n, dtypes=(np.int8, np.uint8, np.int16, np.uint1
         b[1], d[1] = hi - max(1, (hi - lo) // 50), hi
     arr = np.column_stack([b, d])
     return arr.astype(dt), arr.astype(float), np.dtype(dt).name
+
+
+def update_in_place(rng, arr, scale=None):
+    """modify a float (n,2) birth/death array IN PLACE (same object, same shape), keeping death >= birth: what a caller does who
+    reuses a buffer, caps deaths, rescales or perturbs a diagram between two calls.  returns a short description"""
+    n = len(arr)
+    if n == 0:
+        return "empty"
+    sc = float(scale) if scale else max(float(np.max(np.abs(arr))), 1e-300)
+    how = int(rng.integers(0, 5))
+    if how == 0:
+        i = int(rng.integers(0, n)); arr[i, 1] += float(rng.uniform(0.3, 3.0)) * sc
+        return "one death moved"
+    if how == 1:
+        arr *= 2.0
+        return "everything doubled"
+    if how == 2:
+        arr[:, 1] = np.minimum(arr[:, 1], arr[:, 0] + float(rng.uniform(0.05, 0.5)) * sc)
+        arr[0, 1] += 0.25 * sc
+        return "deaths capped"
+    if how == 3:
+        arr += float(rng.uniform(0.5, 2.0)) * sc
+        arr[int(rng.integers(0, n)), 1] += 0.5 * sc
+        return "translated and one death moved"
+    arr[:] = arr[::-1].copy(); arr[0, 1] += 0.75 * sc
+    return "rows reversed and one death moved"
